@@ -13,8 +13,9 @@ theorem keepMul_sound (top : Nat) (h : keepMul top = false) : 2 * (top + 1) ≤ 
   unfold T_mul at h'
   omega
 
-/-- `square_redc` takes the narrow arm only when `4·(top+1) ≤ 2^64`, i.e. `4·Mod ≤ 2^(64N)`. -/
-theorem keepSq_sound (top : Nat) (h : keepSq top = false) : 4 * (top + 1) ≤ 2 ^ 64 := by
+/-- `square_redc` takes the narrow arm only when `3·(top+1) ≤ 2^64`, i.e. `3·Mod ≤ 2^(64N)` (the accumulator is
+    always below `3·Mod`, so it then fits `N` limbs). -/
+theorem keepSq_sound (top : Nat) (h : keepSq top = false) : 3 * (top + 1) ≤ 2 ^ 64 := by
   unfold keepSq at h
   have h' := of_decide_eq_false h
   unfold T_sq at h'
